@@ -13,8 +13,10 @@ import (
 	"fmt"
 	"os"
 	"reflect"
+	"runtime"
 	"strconv"
 	"strings"
+	"sync"
 	"time"
 )
 
@@ -44,6 +46,8 @@ func Reset() {
 	Observed = nil
 	loaded = false
 	params = nil
+	evLoaded = false
+	baseGorSet = false
 }
 
 func load() {
@@ -465,3 +469,123 @@ func xmlStructShape(t reflect.Type, path string, ownSpace string, stack []reflec
 		xmlStructShape(s.t, s.path, s.space, append(append([]reflect.Type{}, stack...), s.t), lines)
 	}
 }
+
+// ---- concurrency ---------------------------------------------------------
+
+var (
+	evMu       sync.Mutex
+	evCond     = sync.NewCond(&evMu)
+	evOrder    []string
+	evDone     []bool
+	evLoaded   bool
+	baseGor    int
+	baseGorSet bool
+)
+
+func loadEvents() {
+	if evLoaded {
+		return
+	}
+	evLoaded = true
+	evOrder, evDone = nil, nil
+	load()
+	if e, ok := values["__events"]; ok {
+		if l, ok := e.V.([]interface{}); ok {
+			for _, x := range l {
+				if s, ok := x.(string); ok {
+					evOrder = append(evOrder, s)
+				}
+			}
+		}
+	}
+	evDone = make([]bool, len(evOrder))
+}
+
+// Event marks a harness-level point of a concurrent run. Under the executor
+// the order in which the events of a path occur is recorded with the model;
+// natively an event waits (for at most 300 ms) until every event recorded
+// before it has occurred, which steers the real scheduler towards the
+// interleaving the solver found.
+func Event(label string) {
+	evMu.Lock()
+	defer evMu.Unlock()
+	loadEvents()
+	idx := -1
+	for i, l := range evOrder {
+		if l == label && !evDone[i] {
+			idx = i
+			break
+		}
+	}
+	if idx < 0 {
+		return
+	}
+	deadline := time.Now().Add(300 * time.Millisecond)
+	for {
+		all := true
+		for i := 0; i < idx; i++ {
+			if !evDone[i] {
+				all = false
+			}
+		}
+		if all || time.Now().After(deadline) {
+			break
+		}
+		t := time.AfterFunc(20*time.Millisecond, func() { evCond.Broadcast() })
+		evCond.Wait()
+		t.Stop()
+	}
+	evDone[idx] = true
+	evCond.Broadcast()
+}
+
+// GoroutineBaseline notes the goroutines that exist before the harness starts
+// any (first call only); Quiesce counts against it.
+func GoroutineBaseline() {
+	if !baseGorSet {
+		baseGorSet = true
+		baseGor = runtime.NumGoroutine()
+	}
+}
+
+// Terminates runs f and reports whether it returned; natively f gets two
+// seconds, under the executor "never" means blocked in every continuation.
+func Terminates(f func()) bool {
+	GoroutineBaseline()
+	done := make(chan interface{}, 1)
+	go func() {
+		defer func() { done <- recover() }()
+		f()
+	}()
+	select {
+	case r := <-done:
+		if r != nil {
+			panic(r)
+		}
+		return true
+	case <-time.After(2 * time.Second):
+		return false
+	}
+}
+
+// Quiesce lets every other goroutine run until it has finished or is blocked
+// for ever and returns the number of those still alive.
+func Quiesce() int {
+	if !baseGorSet {
+		return 0
+	}
+	n := 0
+	for i := 0; i < 50; i++ {
+		n = runtime.NumGoroutine() - baseGor
+		if n <= 0 {
+			return 0
+		}
+		time.Sleep(10 * time.Millisecond)
+	}
+	return n
+}
+
+// Races lists the unordered conflicting accesses seen so far (executor only).
+func Races() string { return "" }
+func RaceOff()      {}
+func RaceOn()       {}
